@@ -60,6 +60,15 @@ func glExpr(e ast.Expr) string {
 		if id, ok := x.Fun.(*ast.Ident); ok && (id.Name == "make" || id.Name == "new") && len(x.Args) > 0 {
 			args[0] = fmt.Sprintf("(.str %s)", leanStr(exprStr(x.Args[0]))) // a type, not a value
 		}
+		if x.Ellipsis.IsValid() {
+			// f(a, b...): the callee name carries the spread marker
+			if id, ok := x.Fun.(*ast.Ident); ok {
+				return fmt.Sprintf("(.call (.id %s) [%s])", leanStr(id.Name+"..."), strings.Join(args, ", "))
+			}
+			if se, ok := x.Fun.(*ast.SelectorExpr); ok {
+				return fmt.Sprintf("(.call (.sel %s %s) [%s])", glExpr(se.X), leanStr(se.Sel.Name+"..."), strings.Join(args, ", "))
+			}
+		}
 		return fmt.Sprintf("(.call %s [%s])", glExpr(x.Fun), strings.Join(args, ", "))
 	case *ast.IndexExpr:
 		return fmt.Sprintf("(.idx %s %s)", glExpr(x.X), glExpr(x.Index))
